@@ -827,6 +827,13 @@ func loopCatalogue(tier string) []SItem {
 							bound = cast("2")
 						}
 					}
+					if f.op == "!=" && f.step == "2" {
+						// i != bound with stride 2 does not terminate (before wrapping) for half of the bounds: the
+						// runs exhausted the step budget and said nothing. The three IDs stay reserved so that the
+						// numbering (and with it the known-finding list) does not shift.
+						n += 3
+						continue
+					}
 					// condition form
 					add(par, fmt.Sprintf("for i := %s; i %s %s; %s {\n\t\tuse(int(i))\n\t}", start, f.op, bound, upd), unwind)
 					// exit test written the other way round: break on the negated comparison
@@ -849,7 +856,11 @@ func loopCatalogue(tier string) []SItem {
 		// nested and sibling
 		add("n "+ty+", m "+ty, "for i := "+cast("0")+"; i < n; i++ {\n\t\tfor j := "+cast("0")+"; j < m; j++ {\n\t\t\tuse(int(i)*100 + int(j))\n\t\t}\n\t}", 6)
 		add("n "+ty+", m "+ty, "for i := "+cast("0")+"; i < n; i++ {\n\t\tfor j := i; j < m; j++ {\n\t\t\tuse(int(i)*100 + int(j))\n\t\t}\n\t}", 6)
-		add("n "+ty+", m "+ty, "for i := "+cast("0")+"; i < n; i++ {\n\t\tuse(int(i))\n\t}\n\tfor j := m; j > "+cast("0")+"; j-- {\n\t\tuse(int(j))\n\t}", unwind)
+		if ty != "int" {
+			n++ // two 8-bit loops in sequence, each unrolled through a wrap-around: the product of their trip counts exhausted the path budget; ID reserved
+		} else {
+			add("n "+ty+", m "+ty, "for i := "+cast("0")+"; i < n; i++ {\n\t\tuse(int(i))\n\t}\n\tfor j := m; j > "+cast("0")+"; j-- {\n\t\tuse(int(j))\n\t}", unwind)
+		}
 	}
 	return items
 }
